@@ -48,7 +48,7 @@ def correct_last_timing(c):
 
 # ------------------------------------------------------------------------------------ bounded part
 
-TEXTS = ["HELLO THERE", "GENERAL KENOBI", "YOU ARE A BOLD ONE", "OK", "A", "it's 5 o'clock.", "One, two!", "x y z",
+TEXTS = ["HELLO THERE", "   centred title", "  speaker one", "GENERAL KENOBI", "YOU ARE A BOLD ONE", "OK", "A", "it's 5 o'clock.", "One, two!", "x y z",
          "THE QUICK BROWN FOX JUMPS", "over", "12345 67890",
          "Seg\u00fan el men\u00fa", "\u00e1\u00e9\u00ed\u00f3\u00fa \u00e7\u00f7\u00d1\u00f1\u2588", "[ab]=c/d; e+f<g>h? #1 $2 %3 &4@6", "(5) \"q\" it's: x-y, z.",
          "\u00c9l no viene", "\u00a1Hola!", "MA\u00d1ANA \u00c1 \u00fc", "\u00d3",
@@ -57,7 +57,16 @@ assert [len(t_) for t_ in TEXTS[-3:]] == [32, 31, 32]
 
 
 def norm(s):
-    return " ".join(s.split())
+    """a row up to runs of blanks inside it and blanks at its end; blanks sent at the START of a row are characters
+    of the row like any other (text centred with blanks)"""
+    return s[:len(s) - len(s.lstrip(" "))] + " ".join(s.split())
+
+
+def addr(row, indent, to, dbl):
+    """the address of a row: a preamble address code with an indent, optionally followed by a tab offset; doubled,
+    the pair is sent twice as a unit (PAC TO PAC TO)"""
+    ws = [C.pac(row, indent)] + ([C.ctrl(f"TO{to}")] if to else [])
+    return ws + ws if dbl else ws
 
 
 STAND_IN = {"\u00c9": "E", "\u00a1": "!", "\u00c1": "A", "\u00fc": "u", "\u00d3": "O"}     # extended characters and the basic ones sent before them
@@ -82,7 +91,7 @@ def rollup_doc(rng, depth, rows, texts, dbl, drop, gaps, ru_every_line, t0=40):
     ctl = lambda w: [w, w] if dbl else [w]
     ru = C.ctrl({2: "RU2", 3: "RU3", 4: "RU4"}[depth])
     for i, (row, text) in enumerate(zip(rows, texts)):
-        ws = (ctl(ru) if (ru_every_line or i == 0) else []) + ctl(C.ctrl("CR")) + ctl(C.pac(row, rng.choice([0, 4]))) + row_words(text, dbl)
+        ws = (ctl(ru) if (ru_every_line or i == 0) else []) + ctl(C.ctrl("CR")) + addr(row, rng.choice([0, 4, 8]), rng.choice([0, 0, 1, 2, 3]), dbl) + row_words(text, dbl)
         lines.append((C.timecode(t, drop), ws))
         t += len(ws) + gaps[i]
     lines.append((C.timecode(t, drop), ctl(C.ctrl("CR"))))
@@ -95,15 +104,28 @@ def painton_doc(rng, rowsets, dbl, drop, gaps, t0=40):
     for i, rows in enumerate(rowsets):
         ws = ctl(C.ctrl("RDC"))
         for row, text in rows:
-            ws += ctl(C.pac(row, 0)) + row_words(text, dbl)
+            ws += addr(row, rng.choice([0, 0, 4, 8]), rng.choice([0, 0, 2, 3]), dbl) + row_words(text, dbl)
         lines.append((C.timecode(t, drop), ws))
         t += len(ws) + gaps[i]
     lines.append((C.timecode(t, drop), ctl(C.ctrl("RDC"))))
     return C.scc_document(lines)
 
 
+def rows_of(cp):
+    """the rows of a caption from its nodes (get_text() trims the caption as a whole)"""
+    from pycaption.base import CaptionNode
+    rows = [""]
+    for n_ in cp.nodes:
+        if n_.type_ == CaptionNode.BREAK:
+            rows.append("")
+        elif n_.type_ == CaptionNode.TEXT:
+            rows[-1] += n_.content
+    return rows
+
+
 def check_captions(caps, expected_rows):
-    got_lines = [norm(x) for cp in caps for x in cp.get_text().split("\n")]
+    # (a caption that opens with a line break - the row address was one below the previous caption's - has no text before it)
+    got_lines = [norm(x) for cp in caps for x in rows_of(cp) if x != ""]
     if got_lines != [norm(x) for x in expected_rows]:
         return False, {"rows_read": got_lines, "rows_sent": expected_rows}
     starts = [cp.start for cp in caps]
@@ -138,7 +160,9 @@ def bounded(ctx, b):
             doc = rollup_doc(rng, depth, rows, texts, dbl, drop, gaps, every, t0)
             if i % 7 == 3:
                 damage_shared_reader()
-            caps = _SHARED_READER.read(doc, lang=lang).get_captions(lang)
+            # (an offset that no caption of the program falls short of leaves every clause as it is)
+            kw = {"offset": [2, -1.5, 0.25][i % 3]} if (t0 >= 1799 and i % 2) else {}
+            caps = _SHARED_READER.read(doc, lang=lang, **kw).get_captions(lang)
             ok, d = check_captions(caps, texts)
             if not ok:
                 return False, dict(d, doc=doc[:600])
@@ -166,7 +190,8 @@ def bounded(ctx, b):
             doc = painton_doc(rng, rowsets, dbl, drop, gaps, t0)
             if i % 5 == 2:
                 damage_shared_reader()
-            caps = _SHARED_READER.read(doc, lang=lang).get_captions(lang)
+            kw = {"offset": [2, -1.5, 0.25][i % 3]} if (t0 >= 1799 and i % 2) else {}
+            caps = _SHARED_READER.read(doc, lang=lang, **kw).get_captions(lang)
             ok, d = check_captions(caps, [t for rows in rowsets for _, t in rows])
             return ok, (dict(d, doc=doc[:600]) if d else None)
         b.guard(("painton", i), two, sample={"mode": "paint-on", "rows": [[r for r, _ in rows] for rows in rowsets], "doubled": dbl, "drop": drop, "first_frame": t0})
@@ -223,6 +248,7 @@ def run(ctx):
     CM.prove_commands(ctx)
     import props.C06_line as LI
     LI.prove_line(ctx)            # (each code word handed on once; a line resets nothing the doubling logic relies on)
+    LI.prove_read_head(ctx)       # (nothing of an earlier read is left; the offset is applied where the times are made)
     ctx.bounded("programs", "roll-up programs (depth 2-4, fixed and moving base rows incl. one row down / up per line, 1-8 "
                 "rows of text, single / doubled codes, drop / non-drop, gaps 0-90 frames, mode code on every line or only "
                 "once) and paint-on programs (1-3 buffers of 1-3 adjacent or non-adjacent rows): every transmitted row "
